@@ -321,13 +321,54 @@ func negJobs(r *ev.Run) []job {
 	return out
 }
 
+// ---- (D) the node signs through the Cloud-KMS hand-over (DER signature -> parseSignature -> appendV, the real
+// functions): messages whose signature by the node's key has an r or an s with a leading zero byte (found by
+// search) and a plain control; free histories for a 1-member and a 2-member set.
+func kmsJobs(r *ev.Run) []job {
+	e := emitter()
+	mk := func(seq uint64) proch.Msg { return proch.Msg{Seq: seq, Payload: []byte{1, 2, 3}, Emitter: e, Chain: 2, Target: 255, CL: 1, Nonce: 9} }
+	shortR, shortS, plain := proch.ShortScalarSeqs(0, mk, 1)
+	if len(shortR) < 1 || len(shortS) < 1 {
+		ev.Broken("kms path: no short-scalar signatures found")
+	}
+	ms := []proch.Msg{mk(shortR[0]), mk(shortS[0]), mk(plain[0])}
+	var out []job
+	for n := 1; n <= 2; n++ {
+		n := n
+		sets := [][]int{rng(0, n)}
+		c := proch.Config{Name: fmt.Sprintf("kms-path-n%d", n), Sets: sets, OwnKey: 0, Msgs: ms, KMSPath: true}
+		menu := func(nd *proch.Node, m *proch.Model, hist []proch.Event) []proch.Event {
+			var evs []proch.Event
+			if m.Cur < 0 {
+				evs = append(evs, proch.Event{Kind: "set", Set: 0})
+			}
+			if len(nd.Pending) < 2 {
+				for mi := range ms {
+					evs = append(evs, proch.Event{Kind: "msg", M: mi})
+				}
+			}
+			for i := range nd.Pending {
+				evs = append(evs, proch.Event{Kind: "lb", LB: i})
+			}
+			for g := 1; g < n; g++ {
+				for mi := range ms {
+					evs = append(evs, proch.Event{Kind: "obs", G: g, D: mi})
+				}
+			}
+			return evs
+		}
+		out = append(out, job{Name: c.Name, C: c, Depth: 5, Menu: menu, Weight: 1})
+	}
+	return out
+}
+
 func main() {
 	r := ev.Start("C02", "model_checking")
 	if len(os.Args) > 2 && os.Args[1] == "--replay" {
 		replay(r, os.Args[2])
 		return
 	}
-	jobs := append(append(freeJobs(r), permJobs(r)...), negJobs(r)...)
+	jobs := append(append(append(freeJobs(r), permJobs(r)...), negJobs(r)...), kmsJobs(r)...)
 	sort.SliceStable(jobs, func(i, j int) bool { return jobs[i].Weight > jobs[j].Weight })
 	si, sn, worker := ev.Shard()
 	if !worker {
